@@ -31,10 +31,7 @@ spec fn fails_ok<V>(n: NfaBuilder<u8, V>, lm: bool) -> bool {
     &&& forall|s: int| 0 <= s < n.states@.len() ==> (#[trigger] n.states@[s]).fail < n.states@.len()
     &&& nfa_links(n, lm)
 }
-spec fn nfa_outs_ok<V>(n: NfaBuilder<u8, V>) -> bool {
-    &&& forall|t: int| 0 <= t < n.states@.len() ==> opt_u32((#[trigger] n.states@[t]).output_pos) <= n.outputs@.len()
-    &&& forall|j: int| 0 <= j < n.outputs@.len() ==> out_parent(#[trigger] n.outputs@[j]) <= j
-}
+//@include ghost_nfa_outs.rs
 // breadth-first queue handed from the fail pass to the output pass
 spec fn queue_ok<V>(n: NfaBuilder<u8, V>, q: Seq<u32>) -> bool {
     q.len() + 2 == n.states@.len() && q.len() > 0 && forall|i: int| 0 <= i < q.len() ==> 2 <= #[trigger] q[i] < n.states@.len()
